@@ -80,8 +80,24 @@ class C08(Prop):
         for i in sch["df_order"]:
             d = sch["dfs"][i]
             L = d["len"]
-            for p in patterns(r, L, 16 if thorough else 10, 4000 if thorough else 150, ctx.repo,
-                              full3=getattr(ctx, "registered_tier", ctx.tier) == "thorough"):
+            pats = patterns(r, L, 16 if thorough else 10, 4000 if thorough else 150, ctx.repo,
+                            full3=getattr(ctx, "registered_tier", ctx.tier) == "thorough")
+            if L > 16 and d.get("res") and d["dt"] in ("f32", "f64"):
+                # whole units of the physical quantity: multiples of floor / round / ceil of 1/res (a decode shortcut
+                # "whole units are exact" is wrong where 1/res is not an integer)
+                inv = 1 / eval_expr(d["res"])
+                extra = set()
+                for U in {int(inv), int(inv) + 1, int(inv + Fraction(1, 2))}:
+                    if U < 2:
+                        continue
+                    kmax = ((1 << L) - 1) // U
+                    ks = range(1, kmax + 1) if kmax <= 400 else sorted(set(list(range(1, 101)) + [r.randrange(1, kmax + 1) for _ in range(300)] + [kmax, kmax - 1]))
+                    for k in ks:
+                        v = k * U
+                        if v < (1 << L):
+                            extra.update((v, ((1 << L) - v) % (1 << L)))
+                pats = sorted(set(pats) | extra)
+            for p in pats:
                 yield (f"DFDEC {i} {L} {p}", "float" if d["dt"] in ("f32", "f64") else "int",
                        p != 0 and p != (1 << L) - 1)
         # the hand-written numeric fields (bias_m of 1059 / 1065 / 1230) are not df! rows: whole-message ops
